@@ -253,6 +253,8 @@ def metaclass_setattr_contract():
             return [(st, BoolV(is_mut(I.term(args[0]))))]
         I.contracts["_is_mutable_container"] = is_mutable
 
+        prev_vm = I.lib.get("$value_method")
+
         def vmethod(I, st, name, selfv, args, kwargs, ctx):
             if name == "__set__":
                 st.ghost["log"] = st.ghost.get("log", []) + [("descriptor-set", selfv, list(args))]
@@ -260,7 +262,7 @@ def metaclass_setattr_contract():
                 q2 = st.fork()
                 # a validator may reject with any exception type (Path parameters raise OSError)
                 return [(st, Conc(None)), (q, Raise("ValueError", origin="__set__")), (q2, Raise("OSError", origin="__set__"))]
-            return None
+            return prev_vm(I, st, name, selfv, args, kwargs, ctx) if prev_vm is not None else None
         I.lib["$value_method"] = vmethod
 
     def setup(I, st):
@@ -396,6 +398,35 @@ for nm in ('s', 't', 'l'):
 after = (list(SA.param.s.objects), list(SA.param.t.objects), dict(SA.param.t.names), list(SA.param.l.objects))
 if after != before:
     bad.append('class-level assignments on the subclass changed what the parent reports: %r -> %r' % (before, after))
+# every plain value for an existing Parameter goes through the descriptor, whatever the attribute is
+# called and whatever the value is (also the very object the class already shows)
+class UA(param.Parameterized):
+    _scale = param.Number(1, bounds=(0, 10))
+    r = param.Parameter(default=('frozen',), readonly=True)
+    n = param.Number(2, bounds=(0, 5))
+class UB(UA):
+    pass
+for cls in (UA, UB):
+    for nm, val, exc in (('_scale', 99, ValueError), ('n', 99, ValueError), ('r', UA.r, TypeError), ('r', ('other',), TypeError)):
+        try:
+            setattr(cls, nm, val)
+        except exc:
+            pass
+        except Exception as e:
+            bad.append('%s.%s = %r raised %s instead of %s' % (cls.__name__, nm, val, type(e).__name__, exc.__name__))
+        else:
+            bad.append('%s.%s = %r was accepted (the Parameter must reject it with %s)' % (cls.__name__, nm, val, exc.__name__))
+    try:
+        if not isinstance(inspect.getattr_static(cls, '_scale'), param.Parameter) or cls.param['_scale'].default != cls._scale:
+            bad.append('%s._scale is no longer governed by its Parameter' % cls.__name__)
+    except Exception as e:
+        bad.append('%s._scale is no longer governed by its Parameter (%r)' % (cls.__name__, e))
+try:
+    UB._scale = 3
+    if UB.param['_scale'].default != 3 or UA._scale != 1:
+        bad.append('UB._scale = 3: UB.param[_scale].default=%r UA._scale=%r' % (UB.param['_scale'].default, UA._scale))
+except Exception as e:
+    bad.append('UB._scale = 3 on the subclass: %r' % (e,))
 w = []
 SA.param.watch(lambda e: w.append(e.new), 's')
 SB.s = 'b'
